@@ -90,6 +90,7 @@ class Prop(PropBase):
         "time_shift_arr": ["BasebandSignal", "DualPolarizationSignal", "IntensitySignal"],
         "freq_shift": ["BasebandSignal", "DualPolarizationSignal"],
         "coherent": ["BasebandSignal", "DualPolarizationSignal"],
+        "chirp": ["BasebandSignal", "DualPolarizationSignal"],
         "coherent_chirp": ["BasebandSignal", "DualPolarizationSignal"],
         "incoherent": ["IntensitySignal", "BasebandSignal", "FullStokesSignal", "DualPolarizationSignal"],
         "concat0": sigs.CLASSES, "concat1": ["RadioSignal", "IntensitySignal", "BasebandSignal", "DualPolarizationSignal"],
@@ -181,6 +182,10 @@ class Prop(PropBase):
             return {"shifts": [round(rng.uniform(-4, 4), 2) for _ in range(shape[1])], "crop": rng.random() < 0.4}
         if op == "freq_shift":
             return {"frac": rng.choice([0.25, -0.125, 0.5, 0.0625, -0.3])}
+        if op == "chirp":
+            # the chirp itself, also with very large phases (large DM, reference far outside the band or at infinity): the lazy
+            # and the eager chirp are the same function of the same numbers — bit for bit
+            return {"dm": rng.choice([1e-5, 30.0, 500.0, -3000.0]), "ref": rng.choice(["center", "top", "none", "far", "inf"])}
         if op in ("coherent", "incoherent", "coherent_chirp"):
             return {"dm": rng.choice([1e-5, 3e-5, -2e-5, 1e-6]), "ref": rng.choice(["center", "top", "none"])}
         if op in ("concat0", "concat1"):
@@ -237,6 +242,11 @@ class Prop(PropBase):
             return pb.time_shift(z, np.array(a["shifts"]), crop=a["crop"])
         if op == "freq_shift":
             return pb.freq_shift(z, a["frac"] * z.sample_rate)
+        if op == "chirp":
+            DM = pb.DispersionMeasure(a["dm"])
+            ref = {"center": z.center_freq, "top": z.max_freq, "none": None, "far": 2 * z.center_freq, "inf": np.inf * z.center_freq.unit}[a["ref"]]
+            ch = DM.chirp_from_signal(z) if ref is None else DM.chirp_from_signal(z, ref_freq=ref)
+            return pb.Signal(ch, sample_rate=z.sample_rate, start_time=z.start_time)
         if op in ("coherent", "incoherent", "coherent_chirp"):
             DM = pb.DispersionMeasure(a["dm"])
             ref = {"center": z.center_freq, "top": z.max_freq, "none": None}[a["ref"]]
@@ -639,7 +649,7 @@ class Prop(PropBase):
                     f"(each computed alone is right)")
         if code.get("sched_diff"):
             return f"{c['op']}: schedulers disagree: {code['sched_diff']}"
-        if code.get("after_count", 1) == 0 and c["N"] > 0 and c["op"] not in ("time_shift",) and c["sched"] != "processes":
+        if code.get("after_count", 1) == 0 and c["N"] > 0 and c["op"] not in ("time_shift", "chirp") and c["sched"] != "processes":
             return "computing the result never read the input"
         return None
 
